@@ -84,7 +84,8 @@ def gen_case(rng, tier, index):
                                ("arm64", "elf")])
         return {"w": "nfold", "isa": isa, "fmt": fmt,
                 "copies": rng.choice([1, 2, 3, 5, 8, 20]),
-                "via": rng.choice(["scope", "insert_at"]),
+                "via": rng.choice(["scope", "insert_at", "insert_at",
+                                   "function"]),
                 "shape": rng.choice(["loop", "skip", "both", "data-ref"]),
                 "global_label": rng.random() < 0.3,
                 "set_const": rng.random() < 0.3}
@@ -200,6 +201,13 @@ def run_undef(c):
         if exc is None:
             viol.append({"key": "undef:unknown-name-accepted",
                          "msg": text[:600]})
+        else:
+            # a caller may survive the error and go on feeding text to the
+            # same Assembler: the name stays unknown
+            v2 = second_reference(c, text, unknown)
+            if v2:
+                viol.append(v2)
+            ctr["undef_second_reference"] = 1
     else:
         if exc is not None:
             viol.append({"key": "undef:rejected-although-allowed",
@@ -231,6 +239,36 @@ def run_undef(c):
     sig = f"undef:{c['isa']}-{c['fmt']}:{int(c['allow_undef'])}:" \
           f"{len(unknown)}"
     return {"sig": sig, "violations": viol, "counters": ctr}
+
+
+def second_reference(c, text, unknown):
+    from gtirb_rewriting.assembler import Assembler, UndefSymbolError
+    from gtirb_rewriting.assembly import X86Syntax
+    m, msyms = c12.target_module(c)
+    asm = Assembler(m, trivially_unreachable=c["unreachable"],
+                    implicit_cfi_procedure=c["implicit_cfi"],
+                    allow_undef_symbols=False)
+    syntax = X86Syntax.INTEL if c["intel"] else X86Syntax.ATT
+    try:
+        asm.assemble(text, syntax)
+        return None        # (first error did not repeat: not this check's)
+    except UndefSymbolError as e:
+        first = str(e)
+    except Exception:  # noqa
+        return None
+    name = next((u for u in unknown if u in first), None)
+    if name is None:
+        return None
+    again = vocab.asm_text(c["isa"], "call", name, intel=c["intel"]) + "\n"
+    try:
+        asm.assemble(again, syntax)
+    except UndefSymbolError:
+        return None
+    except Exception as e:  # noqa
+        return {"key": f"undef:second-reference-raises-{type(e).__name__}",
+                "msg": repr(e)[:300]}
+    return {"key": "undef:unknown-name-accepted:second-reference",
+            "msg": f"{name} after {first!r}"}
 
 
 def run_multidef(c):
@@ -327,7 +365,12 @@ def run_nfold(c):
             return t
     fns = []
     ctx = RewritingContext(m, fns)
-    if c["via"] == "scope":
+    if c["via"] == "function":
+        # the same body inserted as n new functions
+        p = P()
+        for i in range(n):
+            ctx.register_insert_function(f"newfn{i}", p)
+    elif c["via"] == "scope":
         ctx.register_insert(AllBlocksScope(BlockPosition.ENTRY), P())
     else:
         p = P()
@@ -349,6 +392,26 @@ def run_nfold(c):
     for nme, ss in names.items():
         if len(ss) > 1:
             viol.append({"key": "nfold:duplicate-symbol-name", "msg": nme})
+    if c["via"] == "function":
+        # copies live in intervals of their own: names and counts only
+        for kind in ("loop", "skip", "here", "kconst"):
+            syms = [s for nme, ss in names.items() for s in ss
+                    if nme.startswith(f"{tmp}{kind}")]
+            want = n if (kind == "loop" and c["shape"] in ("loop", "both")) \
+                or (kind == "skip" and c["shape"] in ("skip", "both")) or (
+                kind == "here" and c["shape"] == "data-ref") or (
+                kind == "kconst" and c.get("set_const")) else 0
+            if len(syms) != want or len({s.name for s in syms}) != want:
+                viol.append({"key": "nfold:temp-label-count:functions",
+                             "msg": f"{kind}: {sorted(s.name for s in syms)}"
+                                    f" for {want}"})
+        for i in range(n):
+            if len(names.get(f"newfn{i}", [])) != 1:
+                viol.append({"key": "nfold:function-symbol-count",
+                             "msg": f"newfn{i}"})
+        sig = (f"nfold:{isa}-{c['fmt']}:function:{c['shape']}:{n}:"
+               f"{int(c['global_label'])}{int(bool(c.get('set_const')))}")
+        return {"sig": sig, "violations": viol, "counters": ctr}
     # every copy's branches target its own labels: decode and follow edges
     ob = irview.observe(bu, isa)
     md = irview.decoder(isa)
